@@ -118,14 +118,33 @@ type connProvider struct {
 
 func (p connProvider) NATSConnection() *nats.Conn { return p.nc }
 
-func callerSrc() (string, int) {
+// roundID returns the id of the calling goroutine if it runs an acquisition round (attemptAcquireWithRetry), else 0.
+func roundID(all []string) int64 {
+	isRound := false
+	for _, fn := range all {
+		if strings.HasSuffix(fn, "/leader.(*kvElection).attemptAcquireWithRetry") {
+			isRound = true
+		}
+	}
+	if !isRound {
+		return 0
+	}
+	var buf [64]byte
+	n := runtime.Stack(buf[:], false) // "goroutine 123 [running]:"
+	f := strings.Fields(string(buf[:n]))
+	if len(f) < 2 {
+		return 0
+	}
+	id, _ := strconv.ParseInt(f[1], 10, 64)
+	return id
+}
+
+func callerSrc() (string, int, int64) {
 	pcs := make([]uintptr, 64)
 	n := runtime.Callers(3, pcs)
 	frames := runtime.CallersFrames(pcs[:n])
 	src := ""
 	depth := 0
-	ret := func(s string) (string, int) { return s, depth }
-	_ = ret
 	var all []string
 	for {
 		f, more := frames.Next()
@@ -144,23 +163,23 @@ func callerSrc() (string, int) {
 		if strings.Contains(fn, "/leader.(*kvElection).") {
 			switch {
 			case strings.Contains(fn, "heartbeatLoop"):
-				return "hb", depth
+				return "hb", depth, 0
 			case strings.Contains(fn, "validateToken"):
-				return "validate", depth
+				return "validate", depth, 0
 			case strings.Contains(fn, "verifyLeadershipAfterReconnect"):
-				return "verify", depth
+				return "verify", depth, 0
 			case strings.Contains(fn, "checkKeyAndReelect"):
-				return "check", depth
+				return "check", depth, 0
 			case strings.Contains(fn, "attemptPriorityTakeover"):
-				return "takeover", depth
+				return "takeover", depth, roundID(all)
 			case strings.Contains(fn, "attemptAcquire"):
 				if src == "" {
 					src = "acq"
 				}
 			case strings.Contains(fn, "watchLoop"):
-				return "watch", depth
+				return "watch", depth, 0
 			case strings.Contains(fn, "StopWithContext"):
-				return "stop", depth
+				return "stop", depth, 0
 			}
 		}
 		_ = more
@@ -168,12 +187,12 @@ func callerSrc() (string, int) {
 	if src == "" {
 		src = "other"
 	}
-	return src, depth
+	return src, depth, roundID(all)
 }
 
 func (h *Handle) issue(kind, key string, val []byte, exp uint64) *Item {
 	w := h.w
-	src, depth := callerSrc()
+	src, depth, round := callerSrc()
 	w.mu.Lock()
 	w.nextID++
 	it := &Item{id: w.nextID, inst: h.inst, kind: kind, src: src, key: key, val: val, exp: exp,
@@ -184,7 +203,7 @@ func (h *Handle) issue(kind, key string, val []byte, exp uint64) *Item {
 	w.decide(it, now)
 	w.items = append(w.items, it)
 	w.mu.Unlock()
-	kv := KV{"op": it.id, "kind": kind, "src": src, "key": key, "exp": int64(exp), "depth": depth}
+	kv := KV{"op": it.id, "kind": kind, "src": src, "key": key, "exp": int64(exp), "depth": depth, "round": round}
 	w.describeVal(kv, val, kind == "create" || kind == "update")
 	w.tr.Emit(h.inst, "op_issue", kv)
 	return it
@@ -520,6 +539,9 @@ func (w *World) setup() error {
 				if !c.PromoteReturn {
 					<-ctx.Done()
 					w.tr.Emit(c.ID, "ctx_done", KV{"term": term})
+					if c.PromoteDrainUs > 0 {
+						time.Sleep(us(c.PromoteDrainUs))
+					}
 				}
 			})
 			el.OnDemote(func() {
@@ -1573,6 +1595,21 @@ func (w *World) runGateRelease() {
 	}
 	if d := next.resumeUs - now; d > 0 {
 		time.Sleep(us(d))
+	}
+	// connection notifications scheduled for the very instant of the release (listed before it) are delivered first, and
+	// their handler goroutines get to run up to their first blocking point while the critical section is still held open
+	for _, p := range w.progs {
+		if p == next || p.idx >= len(p.steps) || p.resumeUs != next.resumeUs {
+			continue
+		}
+		if d := p.steps[p.idx].Do; d == "disc" || d == "reconn" || d == "closed" {
+			st := p.steps[p.idx]
+			p.idx++
+			w.exec(&st, w.tr.NowUs())
+			for i := 0; i < 20; i++ {
+				runtime.Gosched()
+			}
+		}
 	}
 	st := next.steps[next.idx]
 	next.idx++
